@@ -90,7 +90,10 @@ pub fn run(prop: &str, args: &Args, report: &Report) -> String {
         let p = Pos::from_fen(root).unwrap();
         let Ok(mut g) = Game::from_fen(root) else { continue };
         l.samples.push(js(*root));
-        dfs(prop, &mut g, &p, depth, &mut vec![], root, report, &mut l);
+        // the whole harness (reference model included) is interpreted: keep the trees small
+        let men = p.b.iter().flatten().count();
+        let d = if men <= 8 { depth } else { depth.min(1) };
+        dfs(prop, &mut g, &p, d, &mut vec![], root, report, &mut l);
     }
     report.merge_local(&mut l);
     "DFS to a small depth from hazard roots, executed under the Miri interpreter (every unchecked table lookup, transmute and new_unchecked on the path is checked against its allocation / validity invariant); each node also judged by the ordinary oracle; distinct = distinct nodes".into()
